@@ -103,15 +103,14 @@ func totUn(op, a string) string {
 	panic("unknown unary form " + op)
 }
 
-// callable members of the real safe library, minus the ones that reach outside the process or
-// belong to another property (//eval: C18)
+// callable members of the real safe library, minus the ones that reach outside the process
 var totLibPaths []string
 
 func totLib() []string {
 	if totLibPaths != nil {
 		return totLibPaths
 	}
-	skip := map[string]bool{"os": true, "net": true, "deprecated": true, "log": true, "eval": true, "std": true, "test": true, "arrai": true}
+	skip := map[string]bool{"os": true, "net": true, "deprecated": true, "log": true, "std": true, "test": true, "arrai": true}
 	var walk func(path string, v rel.Value)
 	walk = func(path string, v rel.Value) {
 		switch x := v.(type) {
@@ -289,7 +288,7 @@ func init() {
 	props["C10"] = func(rc *RunCtx) int {
 		rep := NewReport("C10", rc.Tier, rc.Seed, "exploration")
 		rep.Rule = "TLC enumerates the space of the Totality spec: every binary operator of the grammar (59 forms) on every ordered pair of 28 operand kinds, 35 unary / postfix / call / slice / access / literal-construction / binding forms on every kind, every tuple of 1..2 kinds (thorough: 1..3 over 13 kinds) to which the harness applies every callable member of the real safe library, and every string of up to 3 (thorough: 4, sampled) tokens over a 53-token alphabet of delimiters, operators, keywords and fragments, joined with and without spaces. Each program goes through syntax.EvaluateExpr as the CLI does, then the value is printed or the error rendered, under a budget (6 s, confirmed at 30 s). Violation: an uncaught panic (in evaluation, in printing the value or in rendering the error) or no outcome within the budget; the signature is (form, operand kinds, panic message class, first arr.ai frame)."
-		rep.Assume = []string{"30 s without an outcome on these tiny inputs counts as a hang (evaluations slower than 6 s are counted)", "library members that reach outside the process (//os, //net, //log, //deprecated) are excluded; //eval belongs to C18"}
+		rep.Assume = []string{"30 s without an outcome on these tiny inputs counts as a hang (evaluations slower than 6 s are counted)", "library members that reach outside the process (//os, //net, //log, //deprecated) are excluded"}
 		dir := filepath.Join(verifRoot, ".work", fmt.Sprintf("tot-%d", os.Getpid()))
 		if err := os.MkdirAll(dir, 0o755); err != nil {
 			infraFail("C10: %v", err)
